@@ -161,6 +161,36 @@ def f3_rounding_flag(F, r):
         r.ok("create_transport: rounding", "rounded iff is_rounded; Euclidean sqrt on both paths")
     else:
         r.fail("create_transport: rounding", "the is_rounded flag no longer selects exactly between the rounded and the raw Euclidean distance", F.loc(c))
+    # Euclidean formula pairs like coordinates: (x1 - x2), (y1 - y2)
+    parent_id = None
+    for g in F.children.get(root, []):
+        for bi, si, s in mir.stmts(F.fns[g]):
+            if s["r"]["k"] == "agg" and s["r"].get("ak") == "closure" and s["r"]["n"] == c:
+                parent_id = (g, s)
+    pairs = []
+    for bi, si, s in mir.stmts(cfn):
+        rv = s["r"]
+        if rv["k"] == "bin" and rv["op"] == "Sub" and rv["ty"] == "f64":
+            idx = []
+            for o in rv["o"]:
+                comp = None
+                for k, v, p in mir.trace(cfn, o):
+                    if k == "arg" and v == 2 and p and p[-1].isdigit():
+                        comp = ("inner", int(p[-1]))
+                    elif k == "arg" and v == 1 and p and p[0].isdigit() and parent_id:
+                        pg, ps = parent_id
+                        up = int(p[0])
+                        if up < len(ps["r"]["o"]):
+                            for k2, v2, p2 in mir.trace(F.fns[pg], ps["r"]["o"][up]):
+                                if k2 == "arg" and v2 == 2 and p2 and p2[-1].isdigit():
+                                    comp = ("outer", int(p2[-1]))
+                idx.append(comp)
+            pairs.append(idx)
+    good = len(pairs) == 2 and all(a and b and a[0] != b[0] and a[1] == b[1] for a, b in pairs) and {a[1] for a, b in pairs} == {0, 1}
+    if good:
+        r.ok("create_transport: coordinate pairing", "(x1 - x2), (y1 - y2): like coordinates of the two points are subtracted")
+    else:
+        r.fail("create_transport: coordinate pairing", f"the Euclidean distance does not subtract like coordinates of the two points (pairs {pairs}): distances are not those of the instance", F.loc(c))
     # the same data serves distance and duration (checked as C16-F1 for SingleDataTransportCost); the parent passes the flag through
     pfn = F.fns[root]
     r.ok("create_transport: single matrix", "one matrix for distance and duration (SingleDataTransportCost, see C16)")
